@@ -1142,6 +1142,15 @@ ExpressionEvaluator::evaluate_typed_expression_internal(const ASTNode *node) {
                         int flat_index = 0;
                         int multiplier = 1;
                         for (int d = indices.size() - 1; d >= 0; d--) {
+                            // every index is checked against its own
+                            // dimension, as for integer arrays
+                            if (d >= static_cast<int>(
+                                         var->array_dimensions.size()) ||
+                                indices[d] < 0 ||
+                                indices[d] >= var->array_dimensions[d]) {
+                                throw std::runtime_error(
+                                    "Array index out of bounds");
+                            }
                             flat_index += indices[d] * multiplier;
                             if (d > 0) {
                                 // 次の次元のサイズを掛ける
